@@ -3,7 +3,8 @@
   handshake went.  (The byte-level session model — receive loops, packet reader, probe
   connections — builds on this in later sections.)  Import-free.
 -/
-import SshAudit.Model.Types
+import SshAudit.Model.Wire
+import SshAudit.Model.Banner
 namespace SshAudit
 namespace Session
 
@@ -55,6 +56,130 @@ def auditEnd (cfg : AuditCfg) (h : Handshake) (res : AuditResult) : AuditEnd :=
     | .standard => { status := res.reportStatus, algReport := true, viaSysExit := false }
     | .policy => { status := if res.policyPassed then 0 else 3, algReport := true, viaSysExit := false }
     | .makePolicy => { status := 0, algReport := true, viaSysExit := false }
+
+/-! ### the receive side of `SSH_Socket` over an arbitrary finite peer
+
+A peer is, per connection, a finite list of receive events; when the list is exhausted the
+connection is closed in an orderly way (`recv` returns `b''`).  Every finite behaviour of a peer
+(any bytes, any segmentation, stalls, resets, early close) is such a list. -/
+
+inductive RecvEvent where
+  | data (bs : Bytes)      -- `recv` returns these bytes (an empty chunk is what an orderly close looks like)
+  | timeout                -- `socket.timeout`
+  | error                  -- any other `socket.error`
+deriving Repr, DecidableEq
+
+structure Sock where
+  buf : Bytes := []                  -- unread bytes (`_buf` from the read position)
+  events : List RecvEvent            -- what the peer will still do on this connection
+  recvs : Nat := 0                   -- number of `recv()` calls made so far
+  stalls : Nat := 0                  -- number of those that ended in a timeout or error
+deriving Repr, DecidableEq
+
+inductive RecvRes where
+  | got | closed | timedOut | failed
+deriving Repr, DecidableEq
+
+/-- `SSH_Socket.recv()` -/
+def recv (s : Sock) : RecvRes × Sock :=
+  match s.events with
+  | [] => (.closed, { s with recvs := s.recvs + 1 })
+  | .data bs :: rest =>
+    if bs.isEmpty then (.closed, { s with events := rest, recvs := s.recvs + 1 })
+    else (.got, { s with buf := s.buf ++ bs, events := rest, recvs := s.recvs + 1 })
+  | .timeout :: rest => (.timedOut, { s with events := rest, recvs := s.recvs + 1, stalls := s.stalls + 1 })
+  | .error :: rest => (.failed, { s with events := rest, recvs := s.recvs + 1, stalls := s.stalls + 1 })
+
+/-- `ensure_read(size)`: `while unread_len < size: recv()`, raising `InsufficientReadException` when `recv` reports < 0.
+    Structural recursion on the peer's remaining events; `fuel` is their number. -/
+def ensureReadAux : Nat → Nat → Sock → Option RecvRes × Sock
+  | 0, n, s => if s.buf.length ≥ n then (none, s) else (recv s)  |> fun (r, s') => (some r, s')
+  | fuel + 1, n, s =>
+    if s.buf.length ≥ n then (none, s)
+    else
+      let (r, s') := recv s
+      match r with
+      | .got => ensureReadAux fuel n s'
+      | other => (some other, s')
+
+/-- `none` = enough bytes are buffered; `some r` = the read could not be satisfied (why) -/
+def ensureRead (n : Nat) (s : Sock) : Option RecvRes × Sock := ensureReadAux s.events.length n s
+
+/-- result of `read_packet(2)` -/
+inductive PacketRes where
+  | packet (type : Nat) (body : Bytes)
+  | insufficient (why : RecvRes)       -- the `(-1, message)` return
+  | framingExit                        -- block-size / length check failed: message printed, `sys.exit(CONNECTION_ERROR)`
+  | typeError                          -- `ord(payload[0:1])` on an empty payload (shown unreachable after the D16 repair)
+deriving Repr, DecidableEq
+
+/-- `read_packet(sshv=2)` on a live connection (after the D16 repair): incremental version of `Wire.readPacket` -/
+def readPacketS (s : Sock) : PacketRes × Sock :=
+  match ensureRead 4 s with
+  | (some r, s1) => (.insufficient r, s1)
+  | (none, s1) =>
+    let plen := Wire.ofBE (Wire.natsOf (s1.buf.take 4))
+    let s2 := { s1 with buf := s1.buf.drop 4 }
+    match ensureRead 1 s2 with
+    | (some r, s3) => (.insufficient r, s3)
+    | (none, s3) =>
+      match s3.buf with
+      | [] => (.insufficient .closed, s3)        -- unreachable: ensureRead 1 succeeded
+      | padB :: rest =>
+        let pad := padB.toNat
+        let s4 := { s3 with buf := rest }
+        if (plen + 4) % 8 ≠ 0 ∨ plen < pad + 2 then (.framingExit, s4) else
+        let payLen := plen - pad - 1
+        match ensureRead payLen s4 with
+        | (some r, s5) => (.insufficient r, s5)
+        | (none, s5) =>
+          let payload := s5.buf.take payLen
+          let s6 := { s5 with buf := s5.buf.drop payLen }
+          match payload with
+          | [] => (.typeError, s6)                        -- unreachable: payLen ≥ 1
+          | t :: body =>
+            match ensureRead pad s6 with
+            | (some r, s7) => (.insufficient r, s7)
+            | (none, s7) => (.packet t.toNat body, { s7 with buf := s7.buf.drop pad })
+
+/-- `get_banner()`: one `recv` at a time, each result cut into lines (the D17 behaviour is modelled as it is) -/
+def getBannerAux : Nat → List Str → Sock → Option Banner.Banner × List Str × Option RecvRes × Sock
+  | 0, h, s => (none, h, some .closed, s)
+  | fuel + 1, h, s =>
+    let (r, s') := recv s
+    match r with
+    | .got =>
+      -- the inner loop drains the whole buffer, line by line
+      match Banner.scan h (Banner.splitLines s'.buf) with
+      | (some b, h', rest) => (some b, h', none, { s' with buf := rest.flatten })
+      | (none, h', _) => getBannerAux fuel h' { s' with buf := [] }
+    | other => (none, h, some other, s')
+
+def getBannerS (s : Sock) : Option Banner.Banner × List Str × Option RecvRes × Sock := getBannerAux (s.events.length + 1) [] s
+
+/-- the handshake on the first connection, classified as `audit()` distinguishes it -/
+def handshakeS (s : Sock) : Handshake × Option Wire.Kex × Sock :=
+  match getBannerS s with
+  | (none, _, _, s1) => (.noBanner, none, s1)
+  | (some _, _, _, s1) =>
+    match readPacketS s1 with
+    | (.framingExit, s2) => (.badFraming, none, s2)
+    | (.typeError, s2) => (.badFraming, none, s2)
+    | (.insufficient _, s2) => (.readError, none, s2)
+    | (.packet t body, s2) =>
+      if t ≠ 20 then (.wrongPacketType, none, s2)
+      else match Wire.kexParse body with
+        | .ok k => (.ok, some k, s2)
+        | .error _ => (.parseFailed, none, s2)
+
+/-! ### probe phases: containment of peer-controlled failures -/
+
+/-- the handlers around the probe exchanges after the D15 repair: `except (Exception, SystemExit)` — every
+    exception class the model knows, `sysExit` included, ends the probe and nothing else -/
+def catchProbe {α : Type} (r : Except Exn α) : Option α :=
+  match r with
+  | .ok a => some a
+  | .error _ => none
 
 end Session
 end SshAudit
